@@ -181,7 +181,19 @@ CLAIMED["C16"] = (
     "declined.",
     _NOTE, "DESIGN.md section 5, C16")
 
-for _p in ["C02", "C03", "C10"]:
+CLAIMED["C02"] = (
+    "per-handler denotation terms (abstract value of each evaluator handler's "
+    "return expression) compared with a node->Python-construct oracle; path "
+    "rule for conditional laziness and the unknown-variable error; except-"
+    "clause scan; child coverage; covering-or-raising over the dispatch "
+    "relation",
+    "Each of the ~30 evaluator handlers is one finite fact (operator identity, "
+    "operand order, which children are evaluated on which path) that holds for "
+    "every expression using that node type; the global statement follows by "
+    "structural induction. Arithmetic of the number types is not decided.",
+    _NOTE, "DESIGN.md section 5, C02")
+
+for _p in ["C03", "C10"]:
     NOT_APPLICABLE[_p] = ("check under construction in this revision (see "
                           "DESIGN.md for the planned static rule)")
 NOT_APPLICABLE["C18"] = (
